@@ -12,7 +12,9 @@ CFG = {
                   "every surviving corner and change the index list only by the selection their contract names "
                   "(unweld, remove-unreferenced, remove-null-faces, flip, to-point-cloud, filters, crop, append, repeat, "
                   "split, weld); the single-attribute transforms change exactly one attribute by the stated pointwise map. "
-                  "Proved for every well-formed mesh, every predicate / rounding key / area test / transform parameter. "
+                  "Proved for every well-formed mesh, every predicate / rounding key / area test / transform parameter; "
+                  "contract_sound: the boolean contract evaluated by the check holds of the model's result for all 20 "
+                  "operations and all well-formed inputs, so a contract failure can only come from the implementation. "
                   "The model is tied to the Go code on every run: the implementation is executed on random well-formed "
                   "integer-valued meshes (histories of depth <= 4), and Coq evaluates (vm_compute) both model = "
                   "implementation and the boolean contract on the implementation's own output",
